@@ -254,3 +254,20 @@ pub proof fn lemma_remove_user_wf(o: VolatileState, n: VolatileState, nk: String
     assert(n.users@.len() <= o.users@.len());
     assert(senders_distinct(n));
 }
+
+pub proof fn lemma_inv_bound(m: Map<String, User>, k: String)
+    requires m.contains_key(k), !m[k].modes.invisible
+    ensures inv_set(m).len() < m.dom().len()
+{
+    lemma_inv_insert(m.remove(k), k, m[k]);
+    assert(m.remove(k).insert(k, m[k]) =~= m);
+    assert(m.remove(k).dom().len() == m.dom().len() - 1);
+}
+pub proof fn lemma_opr_bound(m: Map<String, User>, k: String)
+    requires m.contains_key(k), !local_oper(m[k].modes)
+    ensures opr_set(m).len() < m.dom().len()
+{
+    lemma_opr_insert(m.remove(k), k, m[k]);
+    assert(m.remove(k).insert(k, m[k]) =~= m);
+    assert(m.remove(k).dom().len() == m.dom().len() - 1);
+}
